@@ -26,6 +26,18 @@ def make_tree(rnd, profile, modes=None):
                     return ('e', 'iframe', {}, [('e', 'html', {}, [('e', 'body', {}, kids)])] if rnd.random() < 0.5 else kids)
                 return ('e', n[1], n[2], kids)
             body = [ifr(b) for b in body] + [('t', rnd.choice(['tail', 'end', 'x']))]
+            if rnd.random() < 0.5:
+                # an iframe that ends its ancestors over several levels (each a last child, nothing after it), then text
+                inner_doc = ('e', 'html', {}, [('e', 'body', {}, [('e', 'p', {}, [('t', 'hidden')])])])
+                chain = ('e', 'iframe', {}, [inner_doc] if rnd.random() < 0.7 else [])
+                for _ in range(rnd.choice([1, 2, 2, 3])):
+                    chain = ('e', rnd.choice(['div', 'span', 'section']), {}, ([('t', 'lead')] if rnd.random() < 0.4 else []) + [chain])
+                body = body + [('e', 'div', {'class': 'wrap'}, [chain, ('t', rnd.choice(['after', 'trail'])), ('e', 'b', {}, [('t', 'more')])])]
+        if rnd.random() < 0.35:
+            # the SAME subtree (equal markup: bs4 tags compare and hash equal) in two different ancestor contexts
+            shared = tg.generic(2)
+            body += [('e', 'section', {'class': 'main'}, [('e', 'ul', {}, [shared, ('e', 'li', {}, [('t', 'one')])])]),
+                     ('e', 'div', {'class': 'side'}, [('e', 'ul', {}, [shared, ('e', 'li', {}, [('t', 'one')])])])]
         ab = ('e', 'html', {}, [('e', 'head', {}, []), ('e', 'body', {}, body)])
         mode = rnd.choice(['api', 'api', 'html.parser', 'lxml', 'html5lib', 'xml', 'frag', 'multi'])
         if profile == 'contains':
